@@ -196,6 +196,11 @@ func init() {
 		return &Ptr{obj: o}, stOK
 	})
 	// scheduler-related
+	// vJitter: no effect here (the scheduler already explores the interleavings); natively a random
+	// sub-millisecond sleep that lets repeated replays reach different interleavings
+	reg("harness.vJitter", func(it *Interp, g *G, fr *Frame, args []Value, site ssa.Instruction) (Value, stepResult) {
+		return nil, stOK
+	})
 	reg("harness.vYield", func(it *Interp, g *G, fr *Frame, args []Value, site ssa.Instruction) (Value, stepResult) {
 		it.visible(g)
 		return nil, stYield
